@@ -59,10 +59,12 @@ fn arena_for(seed: u64) -> Arena {
 // ---------------------------------------------------------------------------
 // C07 (derived) + C08 + C09 on one value
 
+#[derive(Default)]
 pub struct Which {
     pub c07: bool,
     pub c08: bool,
     pub c09: bool,
+    pub c13: bool,
 }
 
 pub fn check_value<F: Fam>(reg: &Registry, rep: &mut Report, seed: u64, i: u64, w: &Which, sub: &str) {
@@ -96,6 +98,42 @@ pub fn check_value<F: Fam>(reg: &Registry, rep: &mut Report, seed: u64, i: u64, 
                 }
             }
             rep.count("C07/derived len() compared");
+        }
+    }
+    // ---- C13: bounded sinks, derived Encode impls --------------------------------
+    if w.c13 {
+        let len = bytes.len();
+        let caps: Vec<usize> = if len <= 96 { (0..=len + 1).collect() } else { vec![0, 1, len / 2, len - 1, len, len + 1] };
+        for cap in caps {
+            rep.eval();
+            let mut c = Canary::new(cap, 8);
+            let r = mon::guarded(|| minicbor::encode(&v, c.sink()).map_err(|e| e.is_write()));
+            let what = match r {
+                Err(p) => Some(("panic", p.message)),
+                Ok(r) => {
+                    let k = c.content().iter().zip(bytes.iter()).take_while(|(a, b)| a == b).count();
+                    if !c.intact() {
+                        Some(("overrun", format!("bytes outside a sink of capacity {} were modified", cap)))
+                    } else {
+                        match (r, len <= cap) {
+                            (Ok(()), true) if c.content()[..len] == bytes[..] && c.content()[len..].iter().all(|b| *b == vcore::mon::CANARY) => None,
+                            (Ok(()), true) => Some(("bytes", format!("content of a sink of capacity {} differs from the Vec encoding", cap))),
+                            (Err(true), false) if c.content()[k..].iter().all(|b| *b == vcore::mon::CANARY) => None,
+                            (Err(true), false) => Some(("prefix", format!("after the write error a sink of capacity {} holds bytes that are not a prefix of the encoding (first {} bytes agree)", cap, k))),
+                            (Err(false), false) => Some(("error-class", "overflow reported as a non-write error".to_string())),
+                            (Ok(()), false) => Some(("fits", format!("success although the {} byte encoding exceeds capacity {}", len, cap))),
+                            (Err(_), true) => Some(("fits", format!("failure although the {} byte encoding fits capacity {}", len, cap))),
+                        }
+                    }
+                }
+            };
+            match what {
+                Some((kind, msg)) => viol(rep, "C13", ty, &format!("derived-{}", kind), msg, &bytes, &rp),
+                None => rep.count("C13/derived value: sink of this capacity behaves as the model"),
+            }
+        }
+        if rep.want_sample() && len > 6 && len < 40 {
+            rep.sample(J::obj().with("type", J::s(ty)).with("bytes", J::s(hex(&bytes))).with("capacities", J::s(format!("0..={}", len + 1))));
         }
     }
     // ---- C08: documented wire format -----------------------------------------
